@@ -27,7 +27,17 @@ func (p *Prog) kindSwitch() (*fnRef, *ast.SwitchStmt) {
 	sw := switchesIn(fn.Decl.Body, func(s *ast.SwitchStmt) bool {
 		call, ok := s.Tag.(*ast.CallExpr)
 		if !ok {
-			return false
+			// switch kind := typ.Kind(); kind { ... }
+			if id, isID := s.Tag.(*ast.Ident); isID && s.Init != nil {
+				if as, isAs := s.Init.(*ast.AssignStmt); isAs && as.Tok == token.DEFINE && len(as.Lhs) == 1 && len(as.Rhs) == 1 {
+					if l, isL := as.Lhs[0].(*ast.Ident); isL && info.Defs[l] != nil && info.Uses[id] == info.Defs[l] {
+						call, ok = as.Rhs[0].(*ast.CallExpr)
+					}
+				}
+			}
+			if !ok {
+				return false
+			}
 		}
 		sel, ok := call.Fun.(*ast.SelectorExpr)
 		if !ok || sel.Sel.Name != "Kind" {
@@ -81,6 +91,30 @@ func ruleKind(c *Ctx) {
 			}
 			if len(call.Args) < 1 {
 				return true
+			}
+			if ix, isIx := ast.Unparen(call.Args[0]).(*ast.IndexExpr); isIx {
+				// basicTypes[kind]: a package-level table indexed by the switch's own kind value.
+				// Resolved per kind of the clause when the table is a composite literal that
+				// is never written again.
+				if tbl := p.constTable(fn, ix.X); tbl != nil && len(kinds) > 0 {
+					for i, k := range kinds {
+						el := tbl[k]
+						okk := false
+						desc := "no entry"
+						if el != nil {
+							if tc2, isC := ast.Unparen(el).(*ast.CallExpr); isC && isPkgFunc(callee(info, tc2), "reflect", "TypeOf") && len(tc2.Args) == 1 {
+								if bt, isB := info.TypeOf(tc2.Args[0]).Underlying().(*types.Basic); isB {
+									okk = reflectKindOfBasic[bt.Kind()] == k
+									desc = typeStr(info.TypeOf(tc2.Args[0]))
+								}
+							}
+						}
+						handled[k] = true
+						c.Oblige("T.kind", okk, call.Pos(), fn.Name(), fmt.Sprintf("case %s -> %s", kindNames[i], desc),
+							fmt.Sprintf("a named type of kind %s must get the codec registered for the basic type of the same kind (reflect kind %d); resolved through the constant table %s", kindNames[i], k, p.str(ix.X)), nil)
+					}
+					return true
+				}
 			}
 			tc, ok := ast.Unparen(call.Args[0]).(*ast.CallExpr)
 			if !ok || !isPkgFunc(callee(info, tc), "reflect", "TypeOf") || len(tc.Args) != 1 {
@@ -503,4 +537,81 @@ func ruleDelegate(c *Ctx, names []string) {
 			"package-level functions must behave exactly like the default instance: "+why, nil)
 	}
 	c.Floor("T.delegate", len(names))
+}
+
+// constTable: e names a package-level array/slice variable of the function's
+// package that is initialised by a keyed composite literal and never assigned
+// (as a whole or by element) anywhere in the package; returns key -> element.
+func (p *Prog) constTable(fn *fnRef, e ast.Expr) map[int64]ast.Expr {
+	id, ok := ast.Unparen(e).(*ast.Ident)
+	if !ok {
+		return nil
+	}
+	info := fn.Pkg.TypesInfo
+	v, ok := info.Uses[id].(*types.Var)
+	if !ok || v.Parent() != fn.Pkg.Types.Scope() {
+		return nil
+	}
+	var lit *ast.CompositeLit
+	written := false
+	for _, file := range fn.Pkg.Syntax {
+		ast.Inspect(file, func(n ast.Node) bool {
+			switch x := n.(type) {
+			case *ast.ValueSpec:
+				for i, nm := range x.Names {
+					if info.Defs[nm] == types.Object(v) && i < len(x.Values) {
+						lit, _ = ast.Unparen(x.Values[i]).(*ast.CompositeLit)
+					}
+				}
+			case *ast.AssignStmt:
+				for _, l := range x.Lhs {
+					root := l
+					for {
+						switch y := ast.Unparen(root).(type) {
+						case *ast.IndexExpr:
+							root = y.X
+							continue
+						case *ast.SliceExpr:
+							root = y.X
+							continue
+						}
+						break
+					}
+					if rid, ok := ast.Unparen(root).(*ast.Ident); ok && info.Uses[rid] == types.Object(v) {
+						written = true
+					}
+				}
+			case *ast.UnaryExpr:
+				if x.Op == token.AND {
+					root := x.X
+					if ixe, ok := ast.Unparen(root).(*ast.IndexExpr); ok {
+						root = ixe.X
+					}
+					if rid, ok := ast.Unparen(root).(*ast.Ident); ok && info.Uses[rid] == types.Object(v) {
+						written = true
+					}
+				}
+			}
+			return true
+		})
+	}
+	if lit == nil || written {
+		return nil
+	}
+	out := map[int64]ast.Expr{}
+	next := int64(0)
+	for _, el := range lit.Elts {
+		if kv, ok := el.(*ast.KeyValueExpr); ok {
+			k, ok := constInt(info, kv.Key)
+			if !ok {
+				return nil
+			}
+			out[k] = kv.Value
+			next = k + 1
+		} else {
+			out[next] = el
+			next++
+		}
+	}
+	return out
 }
